@@ -418,14 +418,16 @@ class MethodBuilder:
                 f"""
             from __future__ import annotations
             def {self.name}{str_signature} { '-> ' + repr(type_label(self.method_return_type)) if self.method_return_type is not None else ""}:
-                {"validate_attrs(kwargs)" if self.method_args_virtual and self.check_attrs_match_sig else ""}
-                return implementation({self._method_signature_to_implementation_call(self._signature)})
+                {"_spec_classes_validate_attrs(kwargs)" if self.method_args_virtual and self.check_attrs_match_sig else ""}
+                return _spec_classes_implementation({self._method_signature_to_implementation_call(self._signature)})
         """
             ),
             {
-                "implementation": self.implementation,
+                # (Private names, so that they cannot be shadowed by parameters
+                # named after spec-class attributes.)
+                "_spec_classes_implementation": self.implementation,
                 "MISSING": MISSING,
-                "validate_attrs": validate_attrs,
+                "_spec_classes_validate_attrs": validate_attrs,
                 "DEFAULTS": defaults,
             },
             namespace,
